@@ -1,9 +1,15 @@
 package mon
 
 import (
+	"bytes"
 	"fmt"
+	"io"
 	"runtime"
 
+	"github.com/cloudwego/gopkg/bufiox"
+	"github.com/cloudwego/gopkg/protocol/thrift"
+
+	"verifharness/doubles"
 	"verifharness/drv"
 	"verifharness/gen"
 	"verifharness/ref"
@@ -263,6 +269,120 @@ func monC08(c *drv.Ctx) {
 			runAllSkippers(cs, b[:len(b)-1-r.Intn(minInt(len(b)-1, 30))], top, allocCap, true)
 		}
 		cs.C.Obs("random nesting sequences", 1)
+	})
+
+	// (4b') one decoder on a reader that its owner also reads directly between two values (field headers, a
+	// frame's fixed part): every Next starts where the reader stands at that moment, whatever an earlier Next
+	// looked at or left behind
+	c.Stage("decoder-shares-reader", c.Pick(4000, 80000), false, func(cs *drv.Case) {
+		r := cs.R
+		type item struct {
+			raw, enc []byte
+			t        byte
+		}
+		var items []item
+		var stream []byte
+		n := 2 + r.Intn(6)
+		for k := 0; k < n; k++ {
+			if r.Intn(3) == 0 {
+				raw := gen.Bytes(r, 1+r.Intn(12))
+				if r.Intn(4) == 0 {
+					raw = gen.Bytes(r, 64+r.Intn(200))
+				}
+				items = append(items, item{raw: raw})
+				stream = append(stream, raw...)
+				continue
+			}
+			t := ref.KnownTypes[r.Intn(len(ref.KnownTypes))]
+			v := gen.Tree(r, t, gen.TreeOpts{MaxDepth: 3, MaxElems: 4, NoBigCounts: true}, 0)
+			enc := v.Encode(nil)
+			items = append(items, item{enc: enc, t: t})
+			stream = append(stream, enc...)
+		}
+		// the end of the stream: a value cut short (to be rejected), or bytes nobody asks for
+		cutTail := r.Intn(2) == 0
+		if cutTail {
+			t := []byte{ref.STRING, ref.LIST, ref.MAP, ref.STRUCT, ref.SET}[r.Intn(5)]
+			v := gen.Tree(r, t, gen.TreeOpts{MaxDepth: 2, MaxElems: 4, NoBigCounts: true}, 0)
+			enc := v.Encode(nil)
+			enc = enc[:r.Intn(len(enc))]
+			items = append(items, item{enc: enc, t: t})
+			stream = append(stream, enc...)
+		} else {
+			stream = append(stream, gen.Bytes(r, []int{0, 3, 63, 64, 65, 300}[r.Intn(6)])...)
+		}
+		kind := r.Intn(3)
+		var rd bufiox.Reader
+		switch kind {
+		case 0:
+			rd = bufiox.NewBytesReader(place(stream, 0))
+		case 1:
+			rd = bufiox.NewDefaultReader(&doubles.Source{Data: stream, Len: len(stream), ErrAt: len(stream), Err: io.EOF, Sched: r.Intn(doubles.NSched), R: r, WithData: r.Intn(2) == 0, Budget: 10*len(stream) + 100000})
+		default:
+			rd = &doubles.NBReader{B: place(stream, 0)}
+		}
+		d := thrift.NewSkipDecoder(rd)
+		defer d.Release()
+		cs.Desc = M{"reader": []string{"BytesReader", "DefaultReader", "foreign reader"}[kind], "items": len(items), "stream_hex": hexOf(stream), "last_value_cut_short": cutTail}
+		pos := 0
+		for k, it := range items {
+			if it.raw != nil {
+				var got []byte
+				var err error
+				switch r.Intn(4) {
+				case 0:
+					got, err = rd.Next(len(it.raw))
+				case 1:
+					got = make([]byte, len(it.raw))
+					_, err = rd.ReadBinary(got)
+				case 2:
+					if got, err = rd.Peek(len(it.raw)); err == nil {
+						got = append([]byte(nil), got...)
+						err = rd.Skip(len(it.raw))
+					}
+				default:
+					br := thrift.NewBufferReader(rd)
+					for range it.raw {
+						var b int8
+						if b, err = br.ReadByte(); err != nil {
+							break
+						}
+						got = append(got, byte(b))
+					}
+					br.Recycle()
+				}
+				if err != nil || !bytes.Equal(got, it.raw) {
+					cs.Fail("shared-reader-direct-read", nil, M{"item": k, "stream_offset": pos, "message": fmt.Sprintf("a direct read of %d bytes between two decoder calls failed or returned other bytes (err=%v)", len(it.raw), err)})
+					return
+				}
+				pos += len(it.raw)
+				continue
+			}
+			pr := ref.Parse(stream[pos:], it.t)
+			out, err := d.Next(thrift.TType(it.t))
+			if pr.TooDeep || pr.DontCare || pr.MaxNesting >= 64 {
+				cs.C.DontCare("shared-reader-boundary-zone")
+				return
+			}
+			switch {
+			case pr.OK && err != nil:
+				cs.Fail("skip-rejected-wellformed", M{"skipper": "SkipDecoder sharing its reader"}, M{"item": k, "stream_offset": pos, "err": errString(err), "value_hex": hexOf(it.enc)})
+				return
+			case pr.OK && !bytes.Equal(out, stream[pos:pos+pr.N]):
+				cs.Fail("skip-wrong-extent", M{"skipper": "SkipDecoder sharing its reader"}, M{"item": k, "stream_offset": pos, "message": fmt.Sprintf("Next returned %d bytes, the value at the reader's position has %d (equal prefix %d)", len(out), pr.N, firstDiff(out, stream[pos:pos+pr.N]))})
+				return
+			case !pr.OK && err == nil:
+				cs.Fail("skip-accepted-malformed", M{"skipper": "SkipDecoder sharing its reader", "causes": causeNames(pr.Causes)}, M{"item": k, "stream_offset": pos, "message": fmt.Sprintf("Next accepted %d bytes where the stream holds only a strict prefix of a value", len(out))})
+				return
+			}
+			if !pr.OK {
+				cs.C.Obs("cut-short values rejected by a decoder sharing its reader", 1)
+				break
+			}
+			pos += pr.N
+			cs.C.Obs("values skipped by a decoder sharing its reader", 1)
+		}
+		cs.Count(len(items) >= 3, hexOf(stream), kind)
 	})
 
 	// (4c) size fields with the sign bit set that are followed by as many bytes as their unsigned reading
